@@ -623,6 +623,7 @@ def run(ck: Check):
         compare_case(ck, case, recs, m, funcs_m)
     run_compare_options(ck)
     run_bws_exact_regime(ck)
+    run_unfitted_with_callbacks(ck)
     ck.notes.append(
         "array-like non-ndarrays (objects exposing .shape) are not type-checked by compare in any class; they are compared "
         "with the model (which predicts exactly that) but not flagged: the brief lists lists/None/scalars as the non-array inputs"
@@ -713,6 +714,43 @@ def run_bws_exact_regime(ck):
             ck.violation(dict(clause="repeatable", detector="BWSTest", regime="exact"), dict(what="BWSTest in the exact regime (all arrangements enumerated) is not repeatable / differs from scipy.stats.bws_test", n=n, m=m, first=[float(r1.statistic), float(r1.p_value)], second=[float(r2.statistic), float(r2.p_value)], scipy=[float(e.statistic), float(e.pvalue)], X_ref=X.tolist(), X_test=Y.tolist()))
 
 
+def run_unfitted_with_callbacks(ck):
+    """needs-fit with callbacks attached: compare() on a detector that was never fitted, that was reset, or that its reset
+    callback just un-fitted raises MissingFitError - the same error as without callbacks (deterministic)."""
+    from frouros.callbacks import PermutationTestDistanceBased as _PTD, ResetStatisticalTest as _RST
+    from frouros.detectors.data_drift import EMD as _EMD, KSTest as _KS, PSI as _PSI
+    from frouros.detectors.data_drift.exceptions import MissingFitError as _MFE
+
+    X, Y = np.arange(20, dtype=float), np.arange(20, dtype=float) + 30.0
+    makers = [("KSTest+reset", lambda: _KS(callbacks=[_RST(alpha=0.5)])), ("EMD+permutation", lambda: _EMD(callbacks=[_PTD(num_permutations=5, random_state=1)])),
+              ("PSI+permutation", lambda: _PSI(callbacks=[_PTD(num_permutations=5, random_state=1)]))]
+    for nm, mk in makers:
+        for how in ("never-fitted", "after-reset", "after-callback-reset"):
+            if how == "after-callback-reset" and "reset" not in nm:
+                continue
+            try:
+                d = mk()
+                if how == "after-reset":
+                    d.fit(X=X)
+                    d.reset()
+                elif how == "after-callback-reset":
+                    d.fit(X=X)
+                    d.compare(X=Y)   # p <= alpha: the callback un-fits the detector
+                try:
+                    d.compare(X=Y)
+                    got = "no exception"
+                except _MFE:
+                    got = "MissingFitError"
+                except Exception as e:  # noqa: BLE001
+                    got = type(e).__name__
+            except Exception as e:  # noqa: BLE001
+                got = "setup raised " + repr(e)
+            ck.case(dict(kind="unfitted-with-callbacks", detector=nm, how=how, outcome=got), nontrivial=True, key=repr(("unfit-cb", nm, how)))
+            ck.count("unfitted_with_callbacks_cases")
+            if got != "MissingFitError":
+                ck.violation(dict(clause="needs-fit", scenario="with-callbacks", detector=nm, how=how), dict(what="compare() on an unfitted detector with a callback attached must raise MissingFitError", detector=nm, how=how, outcome=got))
+
+
 def main(tier, seed):
     ck = Check("C14", tier, seed)
     ck.proof = check_props("C14")
@@ -720,7 +758,7 @@ def main(tier, seed):
         "arrays are abstracted to (is ndarray, has .shape, shape, content identity); what NumPy/SciPy compute from them is universally quantified in the theorems "
         "(lib_cmp, lib_fit_fails, lib_sort, lib_stack) and instantiated in the correspondence check by symbolic names of the arguments",
         "in-place modification of the stored array by NumPy/SciPy cannot be expressed in the model; it is covered only by the content snapshot taken around every compare call of this run",
-        "callbacks are not attached (C17 covers them)",
+        "callbacks are not attached in the modelled histories (C17 covers them); the needs-fit clause is also exercised with a reset / permutation callback attached",
         "MMD.fit that dies inside the kernel computation leaves X_ref assigned with the previous kernel term; the functional theorem excludes such histories explicitly (fit_lib_clean) and the monitor skips the clauses about the fitted state after them",
     ]
     run(ck)
